@@ -10,11 +10,14 @@ os.makedirs(d, exist_ok=True)
 for f in ("patch.diff", "demo.rs", "README.md"):
     if os.path.exists(os.path.join(src, f)):
         shutil.copy(os.path.join(src, f), os.path.join(d, f))
-subprocess.check_call(["git", "-C", "/repo", "apply", os.path.join(d, "patch.diff")])
+import tempfile
+T = tempfile.mkdtemp(prefix="sverif-keep-", dir="/var/tmp")
+subprocess.check_call(["rsync", "-a", "--exclude", "target", "--exclude", ".git", "/repo/", T + "/"])
 try:
-    out = subprocess.run(["./check", prop], cwd="/verif", stdout=subprocess.PIPE, text=True).stdout
+    subprocess.check_call(["patch", "-p1", "-s", "-f", "--no-backup-if-mismatch", "-i", os.path.join(d, "patch.diff")], cwd=T)
+    out = subprocess.run(["./check", prop, "--repo", T], cwd="/verif", stdout=subprocess.PIPE, text=True).stdout
 finally:
-    subprocess.check_call(["git", "-C", "/repo", "checkout", "--", "."])
+    shutil.rmtree(T, ignore_errors=True)
 keys = []
 for line in out.splitlines():
     if line.startswith("VIOLATION"):
@@ -26,7 +29,7 @@ meta = {
     "id": sid, "property": prop, "source": "independent sub-agent given only the property text and a scratch worktree",
     "needs_to_manifest": needs,
     "confirmed": conf.strip().splitlines(),
-    "ran": ["git -C /repo apply seeded/%s/patch.diff ; ./check %s ; git -C /repo checkout -- ." % (sid, prop),
+    "ran": ["scratch copy of /repo + seeded/%s/patch.diff ; ./check %s --repo <copy>  (identical to: git -C /repo apply ... ; ./check %s ; git -C /repo checkout -- .)" % (sid, prop, prop),
             "confirm_seeded.sh (scratch worktree): suite with change, demo with change, demo without"],
     "detected_by": keys,
     "status": "detected" if keys else "not detected (see needs_to_manifest for the reason)",
